@@ -44,7 +44,7 @@ M = [
     ('dask-accumulate-state', 'streamz/dask.py', "                state = result\n            self.state = state\n            if self.with_state:\n                return self._emit((self.state, result), metadata=metadata)",
      "                state = result\n            if self.with_state:\n                self.state = state\n                return self._emit((self.state, result), metadata=metadata)\n            self.state = x", ['C20']),
     ('gather-no-retain', 'streamz/dask.py', "        self._retain_refs(metadata)\n        # Several updates can be under way", "        # Several updates can be under way", ['C20', 'C04']),
-    ('map-async-release-on-failure', 'streamz/core.py', "                if results:\n                    await asyncio.gather(*results)\n                self._release_refs(metadata)", "                if results:\n                    await asyncio.gather(*results)\n            self._release_refs(metadata)", ['C04']),
+    ('map-async-release-on-failure', 'streamz/core.py', "                    if results:\n                        await asyncio.gather(*results)\n                    self._release_refs(metadata)", "                    if results:\n                        await asyncio.gather(*results)\n                self._release_refs(metadata)", ['C04']),
     ('slice-drops-awaitables', 'streamz/core.py', "            result = self._emit(x, metadata=metadata)\n        else:\n            result = None", "            self._emit(x, metadata=metadata)\n            result = None\n        else:\n            result = None", ['C03', 'C16']),
     ('df-diff-iloc-offbyone', 'streamz/dataframe/aggregations.py', "        n = sum(map(len, dfs)) - window\n", "        n = sum(map(len, dfs)) - window - 1\n", ['C07']),
     ('df-diff-loc-no-ns', 'streamz/dataframe/aggregations.py', "        mn = mx - pd.Timedelta(window) + pd.Timedelta('1ns')\n", "        mn = mx - pd.Timedelta(window)\n", ['C07']),
@@ -60,7 +60,7 @@ M = [
     ('textfile-source-no-await', 'streamz/sources.py', "                for part in parts:\n                    await asyncio.gather(*self._emit(part + self.delimiter))",
      "                for part in parts:\n                    asyncio.gather(*self._emit(part + self.delimiter))", ['C03']),
     ('filenames-source-no-await', 'streamz/sources.py', "            self.seen.add(fn)\n            await asyncio.gather(*self._emit(fn))", "            self.seen.add(fn)\n            asyncio.gather(*self._emit(fn))", ['C03']),
-    ('iterable-source-no-await', 'streamz/sources.py', "            await asyncio.gather(*self._emit(x))\n            if self.stopped:\n                break\n        self.stopped = True", "            asyncio.gather(*self._emit(x))\n            if self.stopped:\n                break\n        self.stopped = True", ['C03', 'C18']),
+    ('iterable-source-no-await', 'streamz/sources.py', "            await asyncio.gather(*self._emit(x))\n        self.stopped = True", "            asyncio.gather(*self._emit(x))\n        self.stopped = True", ['C03', 'C18']),
     ('kafka-batch-past-high', 'streamz/sources.py', "                if high >= msg.offset():\n                    if keys:", "                if True:\n                    if keys:", ['C09']),
     ('zip-late-input-bounded-deque', 'streamz/core.py', "        self.buffers[upstream] = deque()\n        super(zip, self)._add_upstream(upstream)", "        self.buffers[upstream] = deque(maxlen=self.maxsize)\n        super(zip, self)._add_upstream(upstream)", ['C15']),
     ('interval-string-whole-seconds', 'streamz/core.py', "        interval = pd.Timedelta(interval).total_seconds()", "        interval = pd.Timedelta(interval).seconds", ['C13']),
